@@ -101,6 +101,7 @@ def collect(prop, repo, scratch, tier, only=None):
         return [o], meta
     names = harness_names(prepared)
     todo = []
+    native_only = []
     for g in groups:
         rx = re.compile(g['match'])
         hs = sorted(n for n in names if rx.fullmatch(n))
@@ -113,7 +114,10 @@ def collect(prop, repo, scratch, tier, only=None):
         for h in hs:
             if only and only not in h:
                 continue
-            todo.append((h, g))
+            if g.get('native_only'):
+                native_only.append((h, g))
+            else:
+                todo.append((h, g))
     # one shared build, then one cbmc job per harness
     env = dict(os.environ, CARGO_NET_OFFLINE='true')
     t0 = time.time()
@@ -155,5 +159,39 @@ def collect(prop, repo, scratch, tier, only=None):
             o.extra['prepared'] = prepared
             obls.append(o)
             meta['harnesses'] += 1
+    # thorough tier: the same harnesses are also run NATIVELY against the real crate (real std::sync::RwLock/Arc, real HashMap, no
+    # facade) with concrete payloads: a cross-check that the facade does not misrepresent the real types (bounded, not proof)
+    if (tier == 'thorough' or native_only) and not only:
+        import nativereplay
+        t1 = time.time()
+        nd = os.path.join(scratch, 'r')
+        try:
+            nativereplay.prepare(repo, nd)
+            env2 = dict(os.environ, CARGO_NET_OFFLINE='true', RUSTFLAGS='-Awarnings')
+            p = subprocess.run(['cargo', 'test', '--offline', '--lib', '--no-fail-fast', '--', '--test-threads', '4', 'verif_k::'], cwd=nd,
+                               capture_output=True, text=True, timeout=1200, env=env2)
+            out = p.stdout + p.stderr
+            res = dict(re.findall(r'test \S*verif_k::(k_[a-z0-9_]+) \.\.\. (\w+)', out))
+            wanted = set(h for h, g in native_only) | (set(h for h, g in todo) if tier == 'thorough' else set())
+            n_ok = 0
+            for h in sorted(wanted):
+                o = Obl('%s.N.%s' % (prop, h), 'native', 'cargo test (real std::sync, real HashMap)', [prop], fn=h,
+                        bound='concrete payloads 7,8,9..; one run', where=names.get(h))
+                st = res.get(h)
+                if st == 'ok':
+                    o.status = 'discharged'; n_ok += 1
+                elif st == 'FAILED':
+                    m = re.search(r"%s' \([^)]*\) panicked at [^\n]*\n([^\n]*)" % re.escape(h), out)
+                    msg = m.group(1).strip() if m else 'native assertion failed'
+                    routes = registry().get('routes', {}).get(prop)
+                    o.status = 'failed' if (not routes or any(re.search(rx, msg) for rx in routes)) else 'undecided'
+                    o.detail = 'native run against the real crate fails: ' + msg
+                else:
+                    o.status = 'undecided'; o.detail = 'native run: harness not found in the test output'
+                o.seconds = 0.0
+                obls.append(o)
+            meta['native_cross_check'] = {'harnesses': len(wanted), 'passed': n_ok, 'wall_s': round(time.time() - t1, 1)}
+        except Exception as e:
+            meta['native_cross_check'] = {'error': repr(e)}
     obls.sort(key=lambda o: o.id)
     return obls, meta
